@@ -74,6 +74,7 @@ theorem invS_of_held_except {s : State} (hI : Inv s) {n : Nat} {N : Rep}
   nestOk := hI.nestOk
   anonBound := hI.anonBound
   repBound := hI.repBound
+  ownCOk := hI.ownCOk
 
 theorem wf_adoptSet {s : State} (hI : Inv s) (hidle : Idle s) {v n : Nat} {N : Rep} (b : Bool)
     (hheld : ∀ r R, s.reps r = some R → (∃ w, repOf s w = some r) ∨ r = n)
